@@ -39,7 +39,9 @@ def main():
         rc, out = sh(f"{PY} check.py setup", cwd=vseed)
         print("vseed setup:", out.strip().splitlines()[-1] if out.strip() else rc, flush=True)
     else:
-        sh("git pull -q", cwd=vseed)
+        sh("git fetch -q origin && git reset -q --hard origin/main", cwd=vseed)
+        rc, out = sh(f"{PY} check.py setup", cwd=vseed)
+        print("vseed sync:", sh("git log --oneline | head -1", cwd=vseed)[1].strip(), "|", out.strip().splitlines()[-1] if out.strip() else rc, flush=True)
     os.makedirs("/tmp/confirm", exist_ok=True)
     for pid in pids:
         for x in suffixes:
